@@ -615,6 +615,17 @@ def gen_k5(rng, cyclic, maxn=6, perturb=True):
         w = rng.choice(routes)[0]
         i = rng.randrange(len(w)); c = w[i:i + rng.randint(1, 3)]
         inst["constraints"] = [c]
+    r = rng.random()
+    if r < 0.3 and routes:
+        # constraints given as EDGES of the original graph and / or a coverage fraction below 1: the number of elements
+        # of the translated constraint (nodes and edges of the expansion, head node included) then decides the threshold
+        w = max((q[0] for q in routes), key=len)
+        if len(w) >= 2 and rng.random() < 0.7:
+            i = rng.randrange(len(w) - 1); c = w[i:i + rng.randint(2, 4)]
+            inst["constraints_kind"] = "edges"
+            inst["constraints"] = [[list(e) for e in zip(c[:-1], c[1:])]]
+        if inst["constraints"]:
+            inst["coverage"] = rng.choice([0.7, 0.5, 0.6, 0.8, 0.75])
     if rng.random() < 0.25:
         inst["starts"] = [rng.choice(ns)]
     if rng.random() < 0.25:
@@ -622,6 +633,22 @@ def gen_k5(rng, cyclic, maxn=6, perturb=True):
     if rng.random() < 0.15:
         inst["error_scaling"] = {rng.choice(ns): rng.choice([0, 0.5])}
     return inst
+
+
+def sparse_instances():
+    """graphs in which routes are as short as they get: 1-4 isolated nodes (the minimum cover / decomposition needs as many
+    routes as there are nodes), alone or next to one edge; every class is run on them"""
+    out = []
+    for n in (1, 2, 3, 4):
+        for extra in (False, True):
+            nodes = [f"v{i}" for i in range(n)] + (["p", "q"] if extra else [])
+            edges = [["p", "q"]] if extra else []
+            cfg = {"nodes": nodes, "edges": edges, "node_flow": {v: 2 for v in nodes}, "edge_flow": [], "node_len": None,
+                   "edge_len": [], "cyclic": False}
+            for k in (n + (1 if extra else 0), max(1, n - 1)):
+                out.append({"graph": cfg, "k": k, "ignore": [], "constraints": [], "starts": [], "ends": [],
+                            "error_scaling": {}, "weight_type": "int"})
+    return out
 
 
 def k5_kwargs(cls, inst, node_mode):
@@ -633,6 +660,8 @@ def k5_kwargs(cls, inst, node_mode):
         kw["G"] = build_G(cfg)
         ign = list(inst["ignore"])
         cons = [list(c) for c in inst["constraints"]]
+        if inst.get("constraints_kind") == "edges":
+            cons = [[tuple(e) for e in c] for c in inst["constraints"]]
         starts, ends = list(inst["starts"]), list(inst["ends"])
         scal = dict(inst["error_scaling"])
     else:
@@ -641,7 +670,7 @@ def k5_kwargs(cls, inst, node_mode):
         X, ign = explicit_expansion(xcfg)
         kw["G"] = X
         ign = ign + [x_node(v) for v in inst["ignore"]]
-        cons = x_constraints("nodes", inst["constraints"])
+        cons = x_constraints(inst.get("constraints_kind", "nodes"), inst["constraints"])
         starts, ends = [v + ".0" for v in inst["starts"]], [v + ".1" for v in inst["ends"]]
         scal = {x_node(v): s for v, s in inst["error_scaling"].items()}
     if "flow_attr" in ps:
@@ -658,6 +687,11 @@ def k5_kwargs(cls, inst, node_mode):
         kw["subpath_constraints"] = cons
     if "subset_constraints" in ps and cons:
         kw["subset_constraints"] = cons
+    if inst.get("coverage") is not None and cons:
+        if "subpath_constraints_coverage" in ps:
+            kw["subpath_constraints_coverage"] = inst["coverage"]
+        if "subset_constraints_coverage" in ps:
+            kw["subset_constraints_coverage"] = inst["coverage"]
     if "additional_starts" in ps and starts:
         kw["additional_starts"] = starts
     if "additional_ends" in ps and ends:
@@ -778,8 +812,12 @@ def k5_case(ctx, name, inst, suite="K5.node_vs_expansion"):
 
 def run_k5(ctx, rng, per_class):
     done = 0
+    sparse = sparse_instances()
     for name in DAG_CLASSES + CYC_CLASSES:
         cyc = name in CYC_CLASSES
+        for inst in (sparse if ctx.tier == "thorough" or name.startswith("Min") else sparse[::3]):
+            inst = copy.deepcopy(inst); inst["time_limit"] = ctx.n(6, TL)
+            k5_case(ctx, name, inst, suite="K5.sparse")
         t0 = time.time()
         cnt = 0
         while cnt < per_class and time.time() - t0 < ctx.n(4, 60):
@@ -867,6 +905,17 @@ def search(ctx):
         c = copy.deepcopy(base); c["constraints"] = [random_walk(rng, g, maxlen=3)]
         d = copy.deepcopy(base); d["starts"], d["ends"] = [rng.choice(g["nodes"])], [rng.choice(g["nodes"])]
         fresh += [a, b, c, d]
+        w = random_walk(rng, g, maxlen=4)
+        if len(w) >= 2:
+            for cov in (0.7, 0.5):
+                e = copy.deepcopy(base); e["constraints_kind"] = "edges"
+                e["constraints"] = [[list(x) for x in zip(w[:-1], w[1:])]]; e["coverage"] = cov
+                fresh.append(e)
+    fresh += sparse_instances()
+    for _ in range(60):
+        i = gen_k5(rng, cyclic=False, maxn=5)
+        if i.get("coverage") is not None:
+            fresh.append(i)
     fresh.sort(key=lambda i: len(i["graph"]["nodes"]) + len(i["graph"]["edges"]))
     for inst in cands[:8] + fresh:
         cyc = inst["graph"]["cyclic"]
